@@ -21,9 +21,9 @@ trace specification itself recognises (RshiftDropsStores), a deviation named by 
 ISA-specific key (clause, isa, mnemonic of the first failing prefix, location class).
 """
 import json
-import multiprocessing as mp
 import os
 import sys
+import threading
 from concurrent.futures import ProcessPoolExecutor, ThreadPoolExecutor
 
 from harness import framework, tlc, c02isa, c02run, c02gen, c02attr
@@ -89,8 +89,8 @@ def brief(t):
 # ----------------------------------------------------------------------------------------------------------
 
 def run_M(ctx, quick):
-    cfgs = ["LockstepMC_quick.cfg", "LockstepMC_quick3.cfg"] if quick else \
-           ["LockstepMC_quick.cfg", "LockstepMC_thorough.cfg", "LockstepMC_thorough4.cfg"]
+    cfgs = ["LockstepMC_quick.cfg"] if quick else \
+           ["LockstepMC_quick.cfg", "LockstepMC_quick3.cfg", "LockstepMC_thorough.cfg", "LockstepMC_thorough4.cfg"]
     for cfg in cfgs:
         res = tlc.run("Lockstep", cfg, coverage=(cfg == "LockstepMC_quick.cfg"), tag="c02mc", timeout=6000)
         ctx.add_tlc(res, "M:" + cfg)
@@ -111,8 +111,9 @@ def run_G(ctx, quick, trees):
     # NOTE in -simulate mode TLC evaluates the Emit constraint on every candidate successor of the last step, so one
     # simulated trace yields one behaviour per micro-operation enabled there (~60), not one
     # (cfg, kind, simulate, depth, number of behaviours to replay - a seeded stride sample of what TLC emitted)
-    plan = [("LockstepGen_quick.cfg", "exhaustive2", None, None, 4000 if quick else 60000)]
-    plan.append(("LockstepSim.cfg", "simulated", "num=%d" % (4 if quick else 100), 7, 2500 if quick else 60000))
+    plan = [("LockstepGen_quick.cfg", "exhaustive2", None, None, 1500)] if quick else \
+           [("LockstepGen_thorough.cfg", "exhaustive2", None, None, 60000)]
+    plan.append(("LockstepSim.cfg", "simulated", "num=%d" % (2 if quick else 100), 7, 1000 if quick else 60000))
     for cfg, kind, sim, depth, target in plan:
         wd = tlc.workdir("c02g_" + kind)
         spool = os.path.join(wd, "beh.spool")
@@ -160,18 +161,22 @@ def run_G(ctx, quick, trees):
         # attribution: re-execute the failing behaviours on scratch copies with listed patches applied
         cache = {}
         calls = [0]
+        lock = threading.Lock()
 
         def fails_in(slugs, ids):
             tree = trees.tree(slugs)
             if tree is None:
                 return set(ids)
-            calls[0] += 1
+            with lock:
+                calls[0] += 1
+                call = calls[0]
             job = {"G": [{"id": i, "behaviour": fails[i]["behaviour"], "mt": fails[i]["mt"], "seed": fails[i]["seed"]}
                          for i in sorted(ids)]}
-            out = c02attr.run_child(tree, job, "g%d" % calls[0])
+            out = c02attr.run_child(tree, job, "g%s%d" % (kind[:3], call))
             bad = set()
             for g in out["G"]:
-                cache[(tuple(sorted(slugs)), g["id"])] = g["fails"]
+                with lock:
+                    cache[(tuple(sorted(slugs)), g["id"])] = g["fails"]
                 if g["fails"]:
                     bad.add(g["id"])
             return bad
@@ -207,12 +212,20 @@ def run_T(ctx, quick, trees, only=None):
     if os.environ.get("VERIF_C02_ISAS"):       # development aid for mutation experiments; never set by the registered commands
         names = [n for n in names if n in os.environ["VERIF_C02_ISAS"].split(",")]
     if quick:
-        per = dict((n, 48 if n in c02isa.FIRST else 16) for n in names)
+        per = dict((n, 24 if n in c02isa.FIRST else 8) for n in names)
     else:
         per = dict((n, 1200 if n in c02isa.FIRST else 400) for n in names)
     ctx.note("T_isas", names)
     ctx.note("T_isas_without_semantics_table", skipped)
-    traces = c02run.generate(ctx, [(n, per[n]) for n in names], deep_every=6 if quick else 10)
+    wants = None
+    if os.environ.get("VERIF_C02_SWEEP"):       # development aid: K single-instruction cases per mnemonic
+        k = int(os.environ["VERIF_C02_SWEEP"])
+        wants = {}
+        for n in names:
+            mns = c02isa.Isa(n).mn_sem
+            wants[n] = [[m] for m in mns for _ in range(k)]
+            per[n] = len(wants[n])
+    traces = c02run.generate(ctx, [(n, per[n]) for n in names], deep_every=6 if quick else 10, wants=wants)
     herr = [t for t in traces if "harness_error" in t]
     if herr:
         raise tlc.MachineryError("case driver failed: %s" % herr[0]["harness_error"])
@@ -227,7 +240,7 @@ def run_T(ctx, quick, trees, only=None):
         ctx.trace()
         nontrivial = v["cmp"] > 0 and len(t["seq"]) >= 2
         ctx.case(key=(t["isa"], t["variant"], t["noal"], t["mt"], tuple(t["seq"])) if nontrivial else None)
-        for k in ("cmp", "symB", "symA", "refd", "judged", "outside", "undecided", "bothraise", "dropped", "timeouts"):
+        for k in ("cmp", "symB", "symA", "refd", "judged", "outside", "undecided", "bothraise", "dropped", "timeouts", "divzero"):
             totals[k] = totals.get(k, 0) + v[k]
         reached.setdefault(t["isa"], set()).update(t["seq"])
         if v["dropped"]:
@@ -249,7 +262,8 @@ def run_T(ctx, quick, trees, only=None):
                           "prefixes_disjointness_undecided": totals.get("undecided", 0),
                           "prefixes_raising_on_both_routes": totals.get("bothraise", 0),
                           "bytes_dropped_by_rshift": totals.get("dropped", 0),
-                          "prefixes_with_a_route_over_cpu_budget": totals.get("timeouts", 0)})
+                          "prefixes_with_a_route_over_cpu_budget": totals.get("timeouts", 0),
+                          "prefixes_dividing_by_zero_on_the_concrete_route_not_judged": totals.get("divzero", 0)})
     if totals.get("timeouts", 0):
         ctx.drift("a route exceeded its CPU budget (nested `mods` of loads grow exponentially); prefix not judged")
     cov = {}
@@ -264,24 +278,32 @@ def run_T(ctx, quick, trees, only=None):
     # attribution by patch
     cache = {}
     calls = [0]
+    lock = threading.Lock()
 
     def fails_in(slugs, ids):
         tree = trees.tree(slugs)
         if tree is None:
             return set(ids)
-        calls[0] += 1
-        out = c02attr.run_child(tree, {"T": [bad[i] for i in sorted(ids)], "deep": 0}, "t%d" % calls[0])
-        new = [t for t in out["T"]]
+        with lock:
+            calls[0] += 1
+            call = calls[0]
+        order = sorted(ids)
+        nchunks = max(1, min(4, len(order) // 6))
+        chunks = [order[j::nchunks] for j in range(nchunks)]
+
+        def one(args):
+            j, part = args
+            return c02attr.run_child(tree, {"T": [bad[i] for i in part], "deep": 0}, "t%d_%d" % (call, j))["T"]
+        with ThreadPoolExecutor(nchunks) as ex:
+            new = [t for out in ex.map(one, list(enumerate(chunks))) for t in out]
         ids_of = [t["t"] for t in new]
         good = [t for t in new if "steps" in t]
-        vv, _ = c02run.validate(good, "c02A%d" % calls[0])
-        # validate() renumbers: map back through position
-        back = {}
-        for t, orig in zip(new, ids_of):
-            back[orig] = (t, vv.get(t["t"]) if "steps" in t else None)
+        vv, _ = c02run.validate(good, "c02A%d" % call, maxshards=2)
         res = set()
-        for orig, (t, v) in back.items():
-            cache[(tuple(sorted(slugs)), orig)] = (t, v)
+        for t, orig in zip(new, ids_of):
+            v = vv.get(t["t"]) if "steps" in t else None
+            with lock:
+                cache[(tuple(sorted(slugs)), orig)] = (t, v)
             if failing(v):
                 res.add(orig)
         return res
@@ -333,8 +355,9 @@ def run(ctx):
     trees = c02attr.Trees("c02fix")
     try:
         ctx.note("patch_named_deviations_applicable", [s for s, _ in trees.applicable_fixes()])
-        run_M(ctx, quick)
-        run_G(ctx, quick, trees)
+        if not os.environ.get("VERIF_C02_SWEEP"):
+            run_M(ctx, quick)
+            run_G(ctx, quick, trees)
         run_T(ctx, quick, trees)
     finally:
         trees.cleanup()
